@@ -49,7 +49,7 @@ func runC10(x *Ctx) {
 	tp := x.Tape
 	e := tp.G(len(c10Table) + 1)
 	var sc *chainScen
-	k := chainKnobs{maxFilters: 2, richFilters: false, encoding: true, warm: true, panics: 600, errors: true, plain: true, nested: true, maxPayload: 1500, filterWrites: true}
+	k := chainKnobs{cancels: 40, maxFilters: 2, richFilters: false, encoding: true, warm: true, panics: 600, errors: true, plain: true, nested: true, maxPayload: 1500, filterWrites: true}
 	if e > 0 {
 		en := c10Table[e-1]
 		cfg := &ChainCfg{Entry: en.entry, Router: "curly", ContEnc: en.enc != "", Provider: "bounded", WCap: 1, RCap: 1, Recover: (en.recover + 2) % 3, Pretty: true, Preempt: 0}
@@ -136,7 +136,7 @@ func runC10(x *Ctx) {
 	for _, r := range reqs {
 		res := r.res[0]
 		what := fmt.Sprintf("request %d (%s via %s, recover=%s, Accept-Encoding=%q, crash point %q)", r.ID, r.Target, cfg.Entry, []string{"off", "default", "custom"}[cfg.Recover], r.AE, r.PanicAt)
-		val := fmt.Sprintf("boom-%d@%s", r.ID, r.PanicAt)
+		val := r.panicText()
 		if !res.Panicked {
 			if r.PanicAt != "" {
 				x.Violate("infra-crash-point-missed", "%s: the crash point was never reached", what)
@@ -151,8 +151,8 @@ func runC10(x *Ctx) {
 		}
 		panics++
 		if cfg.Recover == 0 {
-			if fmt.Sprint(res.Escaped) != val {
-				x.Violate("panic-not-propagated", "%s: recovery is off but the caller saw %v instead of the panic value", what, res.Escaped)
+			if fmt.Sprint(res.Escaped) != val || (r.PanicKind == 2 && res.Escaped != res.PanicVal) {
+				x.Violate("panic-not-propagated", "%s: recovery is off but the caller saw %v instead of the panic value (kind %d)", what, res.Escaped, r.PanicKind)
 			}
 		} else {
 			if res.Escaped != nil {
